@@ -57,7 +57,10 @@ def run_trace(tid, shape, events, pkg, classes):
     # wpilib's chooser keeps the NetworkTables 'selected' value across choosers: make the start state explicit
     inst.getEntry("/SmartDashboard/Autonomous Mode/selected").setString(
         shape["defmode"] if shape["defmode"] != "none" else "None")
-    sel = AutonomousModeSelector(pkg)
+    try:
+        sel = AutonomousModeSelector(pkg)
+    except Exception as e:  # noqa
+        return {"id": tid, "shape": shape, "steps": [{"in": {"e": "raised"}, "out": {"cb": [], "err": "%s: %s" % (type(e).__name__, e)}}]}
     wpilib.SmartDashboard.updateValues()
     steps = []
     for ev in events:
